@@ -32,6 +32,31 @@ def jsonable(v):
     return to_jsonable_python(v, by_alias=True, fallback=lambda o: {"$unserialisable": type(o).__name__})
 
 
+def plain(v):
+    """attribute values as JSON, by alias, WITHOUT running field serializers (defaults are stored unvalidated)"""
+    import datetime
+    import enum
+
+    from pydantic import BaseModel
+    from pydantic.fields import FieldInfo
+
+    if isinstance(v, BaseModel):
+        return {(f.alias or n): plain(getattr(v, n)) for n, f in type(v).model_fields.items()}
+    if isinstance(v, (list, tuple)):
+        return [plain(x) for x in v]
+    if isinstance(v, dict):
+        return {str(k): plain(x) for k, x in v.items()}
+    if isinstance(v, enum.Enum):
+        return v.value
+    if isinstance(v, (datetime.datetime, datetime.date)):
+        return v.isoformat()
+    if isinstance(v, FieldInfo):
+        return {"$unserialisable": "FieldInfo"}
+    if v is None or isinstance(v, (str, int, float, bool)):
+        return v
+    return {"$unserialisable": type(v).__name__}
+
+
 def gql_named(t):
     from graphql import get_named_type
 
@@ -124,7 +149,7 @@ def cmd_defaults(req):
         warnings.simplefilter("ignore")
         for n, f in cls.model_fields.items():
             try:
-                fields[f.alias or n] = {"py": n, "set": n in inst.model_fields_set, "value": jsonable(getattr(inst, n))}
+                fields[f.alias or n] = {"py": n, "set": n in inst.model_fields_set, "value": plain(getattr(inst, n))}
             except BaseException as exc:  # noqa
                 fields[f.alias or n] = {"py": n, "set": False, "exc": exc_info(exc)}
     return {"ok": True, "fields": fields}
